@@ -247,6 +247,7 @@ class Prop(Check):
                 "Cli.C30_generate_faithful", "Cli.C30_generate_calls", "Cli.C30_exit", "Cli.C30_exit_located",
                 "Cli.C30_check_mode"]
     DRIVER = "Drivers/Cli.lean"
+    PROCS_THOROUGH = 4
     QUICK_CASES = 390   # + corpus < 400: one Lean driver process
     THOROUGH_CASES = 20000
     RULE = ("command lines `textx generate|check` over 0..3 model files (valid / syntax error / unknown reference at a "
